@@ -258,6 +258,8 @@ type MyNode struct {
 	StartupUnix                      int64
 	WaitingAck                       bool // a commit is stuck waiting for a semi-sync ACK
 	StuckRO                          int  // number of SET read_only attempts that fail with 1205 before succeeding (-1 = always)
+	ApplyAfter                       time.Time // the SQL thread applies nothing before this instant (busy with a long transaction): received ≠ applied
+	StickySQLErrno                   int  // != 0: every START REPLICA runs into this SQL error again (unless ClearErrOnStart)
 	ClearErrOnStart                  bool // START REPLICA clears a non-permanent replication error (environment's choice)
 	StuckUntilSSDisable              bool // SET read_only fails with 1205 until semi-sync is switched off (commits stuck waiting for an ACK)
 	ProcessIDs                       []int
@@ -769,7 +771,7 @@ func (w *World) progress(n *MyNode) {
 			n.Retrieved = gtidUnion(n.Retrieved, src.Executed)
 		}
 	}
-	if n.Repl.SQL {
+	if n.Repl.SQL && !time.Now().Before(n.ApplyAfter) {
 		n.Executed = gtidUnion(n.Executed, n.Retrieved)
 	}
 }
@@ -910,10 +912,8 @@ func (w *World) apply(n *MyNode, op, arg string) (cols []string, rows [][]string
 		}
 		r := n.Repl
 		lag := NULL
-		if r.Lag != nil {
-			lag = strconv.FormatFloat(*r.Lag, 'f', -1, 64)
-		} else if r.IO && r.SQL {
-			lag = strconv.FormatFloat(n.LagWhenRunning, 'f', -1, 64)
+		if l := w.reportedLag(n); l != nil {
+			lag = strconv.FormatFloat(*l, 'f', -1, 64)
 		}
 		lf := r.LogFile
 		if lf == "" {
@@ -991,6 +991,10 @@ func (w *World) apply(n *MyNode, op, arg string) (cols []string, rows [][]string
 			if n.Repl.SQLErrno != 1146 && n.Repl.SQLErrno != 1118 {
 				n.Repl.SQLErrno = 0
 			}
+		}
+		if n.StickySQLErrno != 0 && !n.ClearErrOnStart {
+			// the offending event is still there: the SQL thread stops on it again, however replication was configured
+			n.Repl.SQLErrno = n.StickySQLErrno
 		}
 		if n.Repl.IOErrno == 0 {
 			n.Repl.IO = true
@@ -1107,6 +1111,24 @@ type NodeDigest struct {
 	SyncBinlog    int    `json:"sync_binlog"`
 	UUID          string `json:"uuid"`
 	Conns         int    `json:"conns"`
+	Lag           *float64 `json:"lag_s"` // Seconds_Behind_Source as reported right now (null = NULL)
+}
+
+// reportedLag: Seconds_Behind_Source as the server reports it (nil = NULL): NULL only if the SQL thread is not running, or
+// the IO thread is not running and the relay log is used up (lock held).
+func (w *World) reportedLag(n *MyNode) *float64 {
+	r := n.Repl
+	if r == nil {
+		return nil
+	}
+	if r.Lag != nil {
+		return r.Lag
+	}
+	if r.SQL && (r.IO || gtidUnion(n.Executed, n.Retrieved) != gtidUnion(n.Executed, "")) {
+		l := n.LagWhenRunning
+		return &l
+	}
+	return nil
 }
 
 func (w *World) Digest() []NodeDigest {
@@ -1124,6 +1146,7 @@ func (w *World) DigestNoLock() []NodeDigest {
 			FlushLog: n.FlushLog, SyncBinlog: n.SyncBinlog, UUID: n.UUID, Conns: n.Conns}
 		if n.Repl != nil {
 			d.IsReplica, d.Source, d.IO, d.SQL, d.IOErrno, d.SQLErrno = true, n.Repl.Source, n.Repl.IO, n.Repl.SQL, n.Repl.IOErrno, n.Repl.SQLErrno
+			d.Lag = w.reportedLag(n)
 		}
 		out = append(out, d)
 	}
